@@ -20,6 +20,7 @@
 #ifndef TBOX_COROUTINE_SEMAPHORE_HPP_20180527
 #define TBOX_COROUTINE_SEMAPHORE_HPP_20180527
 
+#include <climits>
 #include <queue>
 #include "scheduler.h"
 
@@ -55,7 +56,8 @@ class Semaphore {
             token_.pop();
             sch_.resume(t);
         }
-        ++count_;
+        if (count_ < INT_MAX)   //! saturate: ++ on INT_MAX is signed overflow
+            ++count_;
     }
 
     inline bool count() const { return count_; }
